@@ -54,15 +54,17 @@ Section FV.
 
   Lemma occ_args : forall args, Forall occc args ->
     forall st l st', subst_with (fun y => cmp' y) args st = Ok (l, st') ->
-    forall bb, In bb (fva l) -> In bb (flat_map tocc args).
+    forall bb, In bb (fva l) -> In bb (flat_map occ_arg args).
   Proof.
     intros args H. induction H as [|y r Hy Hr IH]; intros st l st' Hs bb Hb.
     - simpl in Hs. apply mret_inv in Hs. destruct Hs; subst. apply fva_nil in Hb. contradiction.
     - apply subst_with_cons_inv in Hs. destruct Hs as [a [st1 [rest [Ha [Hrest Hl]]]]]. subst l.
       apply fva_cons in Hb. cbn [flat_map]. apply in_or_app. destruct Hb as [Hb|Hb].
       + left. apply compile_arg_inv in Ha. destruct Ha as [[v [ty [ty0 [Ey [Ety [Ea Est]]]]]]|[Hn [ty0 [c [Ety [Ec Ea]]]]]].
-        * subst. apply fvt_var in Hb. subst bb. simpl. right. left. reflexivity.
-        * subst a. eapply Hy; eauto.
+        * subst. apply fvt_var in Hb. subst bb. simpl. left. reflexivity.
+        * subst a. assert (E : occ_arg y = tocc y).
+          { unfold occ_arg, occ_arg_with. destruct y; try reflexivity. destruct chi as [[|]|]; try reflexivity. contradiction. }
+          rewrite E. eapply Hy; eauto.
       + right. eapply IH; eauto.
   Qed.
 
@@ -183,7 +185,7 @@ Section FV.
       assert (HA : Forall occc args). { eapply Forall_impl; [|exact H]. intros a [_ Ca]. exact Ca. }
       assert (HW : occw (FCall f args ret)).
       { intros cont st s0 st' H0 Hc bb Hb. rewrite wc_unfold in H0. apply wc_call_inv in H0.
-        destruct H0 as [args' [ret0 [Hargs [Eret Es]]]]. subst s0. cbn [tocc].
+        destruct H0 as [args' [ret0 [Hargs [Eret Es]]]]. subst s0. cbn [tocc]. fold occ_arg.
         apply fvs_call in Hb. apply fva_app in Hb. destruct Hb as [Hb|Hb].
         - left. eapply (occ_args args HA); eauto.
         - right. apply fva_cons in Hb. destruct Hb as [Hb|Hb]; [exact Hb | apply fva_nil in Hb; contradiction]. }
@@ -195,7 +197,7 @@ Section FV.
       assert (HA : Forall occc args). { eapply Forall_impl; [|exact H]. intros a [_ Ca]. exact Ca. }
       assert (HC : occc (FCtor x args ty)).
       { intros ty0' st c st' H0 bb Hb. rewrite cmp_unfold in H0. apply cmp_ctor_inv in H0.
-        destruct H0 as [args' [ty0 [Hargs [Ety Ec]]]]. subst c. cbn [tocc].
+        destruct H0 as [args' [ty0 [Hargs [Ety Ec]]]]. subst c. cbn [tocc]. fold occ_arg.
         apply fvt_xtor in Hb. eapply (occ_args args HA); eauto. }
       split; [|exact HC].
       intros cont st s0 st' H0 Hc bb Hb. rewrite wc_unfold in H0. unfold wc_ctor in H0.
@@ -207,7 +209,7 @@ Section FV.
       assert (HA : Forall occc args). { eapply Forall_impl; [|exact H]. intros a [_ Ca]. exact Ca. }
       assert (HW : occw (FDtor t x targs args ty)).
       { intros cont st s0 st' H0 Hc bb Hb. rewrite wc_unfold in H0. apply wc_dtor_inv in H0.
-        destruct H0 as [args' [st1 [sty0 [Hargs [Esty Hscrut]]]]]. cbn [tocc]. rewrite in_app_iff.
+        destruct H0 as [args' [st1 [sty0 [Hargs [Esty Hscrut]]]]]. cbn [tocc]. fold occ_arg. rewrite in_app_iff.
         destruct (Ws _ _ _ _ Hscrut I bb Hb) as [Hg|Hg].
         - left. left. exact Hg.
         - apply fvt_xtor in Hg. apply fva_app in Hg. destruct Hg as [Hg|Hg].
